@@ -11,6 +11,13 @@ roi_to_subset_state is np.unique(...) of the component's categories, as the view
 reversed, rotated, any permutation, extra categories without elements) and roi_to_subset_state is
 handed component.categories, i.e. exactly this list in exactly this order (position i <-> c_i, which
 is also the element's plotted position component.codes); lists with duplicates are passed as given.
+
+Scale ladder (round 2, seeded defect class C09b: scale-dependent tolerances): the numeric axes of the
+`sel`, `pli` and `mpl` families also run over region extents 2^-40 .. 2^40 and region centres 0,
++-2^-30, +-1, +-2^21, +-2^31, +-2^50 (exact dyadics: every vertex, data value and crossing ordinate is
+a double).  Those cases carry eps = "auto" (`sel`) / "exact" (`pli`): the Lean driver decides from the
+exact inputs whether the float path is exact (then eps = 0: boundary compared too, segment tables
+compared exactly) or banded -- and then the band is RELATIVE to the local scale.
 """
 import itertools
 import math
@@ -52,6 +59,23 @@ def unQ(v):
 def fl(v):
     f = unQ(v)
     return f.numerator / f.denominator
+
+
+# ---- magnitude / offset ladder of a numeric axis ---------------------------------------------
+LADDER_E = [-40, -30, -20, -10, -4, 0, 4, 10, 20, 30, 40]                  # region extents 2^e
+LADDER_C = [Fr(0)] + [sg * Fr(2) ** k for k in (-30, 0, 21, 31, 50) for sg in (1, -1)]   # region centres
+
+
+def ladder(max_ratio_log2=44):
+    """(centre C, extent E) pairs such that every C + E*j/32 (|j| <= 256) is a double (53-bit window on
+    both sides); `max_ratio_log2` bounds |C|/E further for float-affected paths (rounding of a vertex
+    near C is |C| 2^-53, which must stay far below the relative band 2^-20 E)."""
+    for C in LADDER_C:
+        for e in LADDER_E:
+            E = Fr(2) ** e
+            if C != 0 and (abs(C) / E > 2 ** max_ratio_log2 or E / abs(C) > 2 ** 44):
+                continue
+            yield C, E
 
 
 def build_roi(r):
@@ -176,7 +200,7 @@ class Sel(Family):
             return ["bad-mask", str(m.dtype), list(m.shape)]
         att = {id(xid): "x", id(yid): "y"}
         return [None if xc is None else labels_to_ids(xc), None if yc is None else labels_to_ids(yc),
-                self.describe_state(state, att, roi_c, unQ(_eps) == 0), bits(m),
+                self.describe_state(state, att, roi_c, "auto" if _eps == "auto" else unQ(_eps) == 0), bits(m),
                 [codes(xid, xcol), codes(yid, ycol)]]
 
     def describe_state(self, st, att, roi_c, exact):
@@ -188,11 +212,17 @@ class Sel(Family):
             return ["And", self.describe_state(st.state1, att, roi_c, exact), self.describe_state(st.state2, att, roi_c, exact)]
         if isinstance(st, S.CategoricalROISubsetState2D):
             assert st.att1 is not None and att[id(st.att1)] == "x" and att[id(st.att2)] == "y"
-            if not exact:
+            if not exact or exact == "auto":
                 return ["Cat2D"]
             # canonical form of the dict of sets: sorted keys, sorted values
             return ["Cat2D", sorted([NAME_ID[str(k)], sorted(NAME_ID[str(x)] for x in v)] for k, v in st.categories.items())]
         if isinstance(st, S.CategoricalMultiRangeSubsetState):
+            if exact == "auto":
+                # ladder cases: the whole segment table as exact rationals (compared exactly by the
+                # driver when the float path is exact on these inputs)
+                table = sorted([NAME_ID[str(k)], [[Q(Fr(float(lo))), Q(Fr(float(hi)))] for lo, hi in v]]
+                               for k, v in st.ranges.items())
+                return ["CatMulti", att[id(st.cat_att)], att[id(st.num_att)], table]
             return ["CatMulti", att[id(st.cat_att)], att[id(st.num_att)]]
         if isinstance(st, S.RoiSubsetState):
             assert att[id(st.xatt)] == "x" and att[id(st.yatt)] == "y"
@@ -213,7 +243,10 @@ class Sel(Family):
         r = case[0]
         orders = {col_order(case[1]), col_order(case[2])}
         order = "dup" if "dup" in orders else "unsorted" if "unsorted" in orders else "sorted"
-        return {"roi": roi_kind(r), "xk": col_kind(case[1]), "yk": col_kind(case[2]), "order": order}
+        sig = {"roi": roi_kind(r), "xk": col_kind(case[1]), "yk": col_kind(case[2]), "order": order}
+        if case[5] == "auto":
+            sig["scale"] = "ladder"
+        return sig
 
     def describe(self, case):
         return sx(case) if len(sx(case)) < 400 else sx(case)[:400] + "…"
@@ -320,6 +353,8 @@ class Sel(Family):
         thorough = tier == "thorough"
         H = self.halfsteps
         nan = "nan"
+        # ---------------- G. magnitude / offset ladder of the numeric axis (first: never cut by the budget) ----
+        yield from self.ladder_cases(thorough)
         # ---------------- A. range x numeric ----------------
         vals = H(Fr(-3, 2), Fr(7, 2), Fr(1, 4)) + [nan]
         other = [Fr(i % 3) for i in range(len(vals))]
@@ -479,6 +514,124 @@ class Sel(Family):
         for _ in range(n):
             yield self.random_case(rng)
 
+    # ---- scale ladder -----------------------------------------------------------------------
+    # Templates live in (k, u) coordinates: k = position on the other axis (categorical positions 0..4,
+    # or a second numeric axis), u = the laddered numeric axis in units of the region's half extent
+    # (region centred on u = 0, half extent 1).  u -> C + E u; every crossing ordinate of the "exact"
+    # polygons on the lines k = 0..4 is a multiple of 1/2 (dyadic slopes / horizontal edges).
+    h = Fr(1, 2)
+    LADDER_EXACT = [
+        ("range", "u", -1, 1),
+        ("rect", h, 7 * h, -1, 1, 1, 0),
+        ("rect", h, 7 * h, -1, 1, -1, 0),                                   # theta = pi
+        ("poly", [(2, 1), (4, 0), (2, -1), (0, 0)]),                         # diamond: chords +-1/2 at k = 1, 3
+        ("poly", [(-h, -1), (9 * h, -1), (9 * h, -h), (h, -h), (h, h), (9 * h, h), (9 * h, 1), (-h, 1)]),  # C: two segments per line
+        ("poly", [(0, -1), (4, 1), (4, -1), (0, -1)]),                       # closed triangle, slope 1/2, edge on k = 4
+        ("poly", [(0, -1), (4, 1), (4, -1), (0, 1)]),                        # bow-tie (double crossing at k = 2)
+    ]
+    LADDER_BAND = [
+        ("poly", [(0, -1), (3, 1), (3, -1)]),                                # slope 2/3: crossing ordinates are not doubles
+        ("ellipse", 2, 0, 2, 1, 1, 0),
+        ("ellipse", 2, 0, 2, 1, -1, 0),
+        ("range", "u", -1, 1, "pre"),                                        # use_pretransform: polygon route (+-1e100 box)
+    ]
+    LADDER_ROT = [
+        ("rect", h, 7 * h, -1, 1, Fr(3, 5), Fr(4, 5)),
+        ("rect", h, 7 * h, -1, 1, 0, 1),
+        ("rect", 1, 3, -h, h, Fr(-5, 13), Fr(12, 13)),
+        ("ellipse", 2, 0, 2, 1, Fr(3, 5), Fr(4, 5)),
+        ("ellipse", 2, 0, h, 1, 0, 1),
+        ("ellipse", 2, 0, 2, 1, Fr(12, 13), Fr(-5, 13)),
+    ]
+    LADDER_ISO = [("circle", 2, 0, 1), ("circle", 2, h, 2)]
+    LADDER_U = [Fr(j, 4) for j in (0, 1, -1, 2, -2, 3, -3, 4, -4, 5, -5, 6, -6, 8, -8, 16, -16)]
+
+    @staticmethod
+    def place(tpl, swap, km, um):
+        """template -> protocol region; k -> km[0] + km[1] k on x (y if swap), u -> um[0] + um[1] u"""
+        K = lambda t: km[0] + km[1] * Fr(t)  # noqa: E731
+        U = lambda t: um[0] + um[1] * Fr(t)  # noqa: E731
+        kind = tpl[0]
+        if kind == "range":
+            on_u = tpl[1] == "u"
+            f = U if on_u else K
+            ori = "xy"[on_u != swap]
+            return ["range", ori, Q(f(tpl[2])), Q(f(tpl[3]))]
+        if kind == "rect":
+            kr, ur = [Q(K(tpl[1])), Q(K(tpl[2]))], [Q(U(tpl[3])), Q(U(tpl[4]))]
+            return ["rect"] + (ur + kr if swap else kr + ur) + [Q(tpl[5]), Q(tpl[6])]
+        if kind == "poly":
+            return ["poly", [[Q(U(u)), Q(K(k))] if swap else [Q(K(k)), Q(U(u))] for k, u in tpl[1]]]
+        if kind == "ellipse":
+            kc, uc, rk, ru = Q(K(tpl[1])), Q(U(tpl[2])), Q(km[1] * Fr(tpl[3])), Q(um[1] * Fr(tpl[4]))
+            return ["ellipse"] + ([uc, kc, ru, rk] if swap else [kc, uc, rk, ru]) + [Q(tpl[5]), Q(tpl[6])]
+        if kind == "circle":
+            assert km[1] == um[1]
+            kc, uc = Q(K(tpl[1])), Q(U(tpl[2]))
+            return ["circle"] + ([uc, kc] if swap else [kc, uc]) + [Q(um[1] * Fr(tpl[3]))]
+        raise ValueError(kind)
+
+    def ladder_cases(self, thorough):
+        nan = "nan"
+        orders = [None, [4, 8, 1, 6, 3], None, [8, 6, 4, 3, 1]]     # None: np.unique list of labels 1 3 4 6 8
+        idx = 0
+        for band_only, pairs in ((False, list(ladder(44))), (True, list(ladder(26)))):
+            for pi, (C, E) in enumerate(pairs):
+                # axis assignments: (k kind, swap, k map); u always C + E u
+                um = (C, E)
+                combos = [("cat", False, (Fr(0), Fr(1))), ("cat", True, (Fr(0), Fr(1))),
+                          ("num", idx % 2 == 1, (Fr(0), Fr(1))),      # second numeric axis of order 1
+                          ("num", idx % 2 == 0, (C - E, E / 2))]      # ... in the same units (uniform)
+                for ci, (kk, swap, km) in enumerate(combos):
+                    if not band_only:
+                        tpls = list(self.LADDER_EXACT)
+                        if kk == "cat" and idx % 4 == 0:
+                            tpls.append(("range", "k", Fr(1, 2), Fr(7, 2)))   # range on the categorical axis
+                    else:
+                        tpls = list(self.LADDER_BAND)
+                        if kk == "num":
+                            # numeric-numeric + use_pretransform: RoiSubsetState(RangeROI), comparisons only
+                            tpls = [t for t in tpls if t[-1] != "pre" or idx % 3 == 0]
+                        if (kk == "num" and km[1] * 2 == um[1]) or (kk == "cat" and E in (Fr(1, 16), 1, 16)):
+                            tpls += self.LADDER_ROT
+                        if kk == "num" and km[1] * 2 == um[1]:
+                            # uniform units: k -> C + E (k - 2) / 2 has half the step of u; circles need one
+                            # unit on both axes, so they are placed with k -> (C - 2E) + E k
+                            tpls += self.LADDER_ISO
+                        elif kk == "cat" and E >= Fr(1, 2 ** 30):
+                            tpls += self.LADDER_ISO[:1]
+                    for ti, tpl in enumerate(tpls):
+                        idx += 1
+                        # quick: every template on every ladder pair under two of the four axis
+                        # assignments (alternating); thorough: the full product
+                        if not thorough and (ci + ti + pi) % 2:
+                            continue
+                        use_pre = tpl[-1] == "pre"
+                        kmap = km
+                        if tpl[0] == "circle":
+                            kmap = (C - 2 * E, E) if kk == "num" else km
+                            if kmap[1] != um[1]:
+                                # a circle over one categorical and one rescaled numeric axis is the
+                                # unrotated ellipse rk = r, ru = E r
+                                tpl = ("ellipse", tpl[1], tpl[2], tpl[3], tpl[3], 1, 0)
+                        roi = self.place(tpl, swap, kmap, um)
+                        # data: every k position x a ladder of u values (well inside / on / well outside
+                        # at distances proportional to the extent) + NaN
+                        us = self.LADDER_U if tpl[0] not in ("rect", "ellipse") or tpl[-1] == 0 else \
+                            [Fr(j, 4) for j in range(-12, 13)]
+                        ks = [0, 1, 2, 3, 4] if kk == "cat" else [0, 1, 2, 3, 4, Fr(1, 2), Fr(5, 2)]
+                        pairs_ = [(k, u) for k in ks for u in us + [nan]]
+                        ucol = self.numcol([u if u == nan else um[0] + um[1] * u for _k, u in pairs_])
+                        if kk == "cat":
+                            order = orders[idx % 4]
+                            labs = sorted([1, 3, 4, 6, 8]) if order is None else order
+                            kl = [labs[k] for k, _u in pairs_]
+                            kcol = self.catcol(kl) if order is None else self.catlcol(order, kl)
+                        else:
+                            kcol = self.numcol([kmap[0] + kmap[1] * Fr(k) for k, _u in pairs_])
+                        xcol, ycol = (ucol, kcol) if swap else (kcol, ucol)
+                        yield [roi, xcol, ycol, use_pre, None, "auto"]
+
     def shapes(self):
         P = lambda pts: ["poly", [[Q(Fr(a)), Q(Fr(b))] for a, b in pts]]  # noqa: E731
         h = Fr(1, 2)
@@ -603,6 +756,9 @@ def grid_polys(rng, n, maxv=6):
         yield pts
 
 
+# polygons of the scale ladder in (k, u) template coordinates (see Sel.LADDER_EXACT / LADDER_BAND)
+LADDER_POLYS = [t[1] for t in Sel.LADDER_EXACT + Sel.LADDER_BAND if t[0] == "poly"]
+
 FIXED_POLYS = [
     [[0, 0], [2, 0], [2, 2], [0, 2]],
     [[0, 0], [2, 0], [2, 2], [0, 2], [0, 0]],
@@ -622,6 +778,17 @@ class Mpl(Family):
     batch = 100
 
     def cases(self, tier, rng):
+        # scale ladder: the y axis (every other pair: both axes, in the same units) at every magnitude /
+        # offset; vertices and points exact doubles, all of matplotlib's differences and products exact
+        for i, (C, E) in enumerate(ladder(44)):
+            km = (C - E, E / 2) if i % 2 else (Fr(0), Fr(1))
+            lpts = [[Q(km[0] + km[1] * Fr(a, 2)), Q(C + E * Fr(b, 4))] for a in range(-2, 11) for b in range(-6, 7)]
+            for tpl in LADDER_POLYS:
+                vs = [[Q(km[0] + km[1] * Fr(k)), Q(C + E * Fr(u))] for k, u in tpl]
+                if i % 3 == 2:      # the ladder on x instead
+                    yield [[[b, a] for a, b in vs], [[b, a] for a, b in lpts]]
+                else:
+                    yield [vs, lpts]
         pts = [[Q(Fr(a, 4)), Q(Fr(b, 4))] for a in range(-6, 19) for b in range(-6, 19)]
         polys = [[[Fr(a), Fr(b)] for a, b in p] for p in FIXED_POLYS] + list(grid_polys(rng, 100 if tier == "quick" else 3000))
         for p in polys:
@@ -651,6 +818,19 @@ class Pli(Family):
     batch = 200
 
     def cases(self, tier, rng):
+        # scale ladder: ordinates C + E u (every other pair: the line coordinate in the same units too);
+        # segments travel as exact rationals ("exact": compared exactly when the driver finds the
+        # float evaluation exact on these inputs -- all but the slope-2/3 triangle)
+        for i, (C, E) in enumerate(ladder(44)):
+            km = (C - E, E / 2) if i % 2 else (Fr(0), Fr(1))
+            lys = [Q(C + E * Fr(j, 8)) for j in range(-20, 21)]
+            for tpl in LADDER_POLYS:
+                vs = [[Q(km[0] + km[1] * Fr(k)), Q(C + E * Fr(u))] for k, u in tpl]
+                lines = (0, 1, 2, 3, 4, Fr(1, 2), Fr(5, 2), Fr(9, 2))
+                if tier == "quick":     # half of the lines, alternating from pair to pair
+                    lines = lines[i % 2::2]
+                for k in lines:
+                    yield [vs, Q(km[0] + km[1] * Fr(k)), lys, "exact"]
         ys = [Q(Fr(a, 8) + Fr(1, 32)) for a in range(-12, 40)]
         polys = [[[Fr(a), Fr(b)] for a, b in p] for p in FIXED_POLYS] + list(grid_polys(rng, 250 if tier == "quick" else 8000, 8))
         for p in polys:
@@ -660,6 +840,8 @@ class Pli(Family):
     def run_impl(self, case):
         vs, xv, _ys, _eps = case
         segs = polygon_line_intersections([fl(p[0]) for p in vs], [fl(p[1]) for p in vs], xval=fl(xv))
+        if _eps == "exact":
+            return [[Q(Fr(float(lo))), Q(Fr(float(hi)))] for lo, hi in segs]
         out = []
         for lo, hi in segs:
             a = math.floor(Fr(float(lo)) * GRID + Fr(1, 2))
@@ -734,10 +916,11 @@ PROP = Property(
               "C09.from_range_any_list", "C09.contains_needs_sorted", "C09.categorical_roi",
               "C09.rect_categorical", "C09.polygon_cat_cat", "C09.polygonised_cat_num", "C09.polygon_cat_num", "C09.rect_rotated_cat_num",
               "C09.numeric_numeric", "C09.category_order_irrelevant", "C09.categories_ok", "C09.roi_selection",
+              "C09.selection_scale_equivariant",
               "C09.rect_categorical_rotated_witness"],
     families=[FromRange(), Mpl(), Pli(), Sel()],
     trusted_base=["numpy comparisons / searchsorted / unique, matplotlib Path.contains_points (literal crossing rule, validated by the mpl L0 family), IEEE doubles on exactly representable inputs"],
-    assumptions=["float evaluation of polygon/line intersections, rotations and the 100-gon approximation of circles/ellipses agrees with exact arithmetic outside the recorded boundary band (eps per case: 0 for exact paths, 2^-20 for float-affected paths, radius/900 for polygonised circles/ellipses)"],
+    assumptions=["float evaluation of polygon/line intersections, rotations and the 100-gon approximation of circles/ellipses agrees with exact arithmetic outside the recorded boundary band (strata with coordinates of order 1: eps per case 0 for exact paths, 2^-20 for float-affected paths, radius/900 for polygonised circles/ellipses; scale-ladder strata (extents 2^-40..2^40, centres up to +-2^50): decided by the Lean driver from the exact inputs -- 0 when every float intermediate is a double, otherwise RELATIVE to the local scale: 2^-20 of the region's extent on each numeric axis / of the radius / of the shorter side, radius/900 for polygonised circles and ellipses)"],
     rule="non-trivial = the mask contains both selected and unselected elements (sel), a non-empty category list (frange), some inside point (mpl), some segment (pli); distinct = distinct (family, input) hash",
 )
 for _f, _share in zip(PROP.families, (0.08, 0.08, 0.12, 0.72)):
